@@ -78,7 +78,7 @@ func VerifSnapshot() {
 	heights := []uint32{258912, 274176} // first snapshot heights >= 2.0 and >= 2.0.2
 	in := new(vrtSnapIn)
 	in.height = heights[vrt.Choose("era", 2)]
-	pool := []fat2.PTicker{fat2.PTickerUSD, fat2.PTickerXBT, fat2.PTickerEUR}
+	pool := []fat2.PTicker{fat2.PTickerEUR, fat2.PTickerXBT, fat2.PTickerUSD} // ticker order EUR < XBT: a zero-rated asset before a priced one is reachable with 2 assets
 	in.assets = pool[:nAssets]
 	n := nBoth
 	if extras == 1 {
